@@ -75,6 +75,11 @@ theorem befp_sound_honest_block {H : HashFn} (hk : HashOK H) (C : Codec) {ver : 
   rw [hk2]
   exact ⟨this, hrec _ this⟩
 
+/-- non-vacuity: `BefpWF` and `RecOK` are satisfiable (the real ones are exercised on every correspondence line: the
+    real codec recovers real codewords, decoded proofs have 29-byte namespaces and 90-byte nodes) -/
+example : BefpWF ⟨1, [none, none], 0, .row⟩ := by intro s hs; simp at hs
+example (cw : List Bytes) : RecOK ⟨fun l => l, fun _ => cw⟩ 1 cw := fun _ _ _ => rfl
+
 /-- what is observed of an outcome -/
 def obsOf : Except BErr Unit → Obs
   | .ok () => .ok
